@@ -252,8 +252,21 @@ def oracle(ck, tier, deep):
         inten = np.exp(-radial ** 2 / (0.1 * K) ** 2) + 0.3 + 0.1 * rng.random(K + 1)
         c1, c2 = float(rng.uniform(1e-3, 10)), float(rng.uniform(20, 300))
         ck.count(("S.topes-cal", start == 0), suite="S.toPES")
+        # (the calibration factor may come out of an array; with a repeller voltage it is rescaled inside — not in the caller's array)
+        c_arr = np.array(c1)
+        vmi.toPES(radial, inten.copy(), c_arr, Vrep=-float(rng.uniform(100, 3000)))
+        if float(c_arr) != c1:
+            ck.violation(dict(site="toPES", clause="argument-modified"), dict(K=K, c=c1, now=float(c_arr)),
+                         f"toPES(..., energy_cal_factor=np.array({c1}), Vrep=…) changed the caller's array to {float(c_arr)}")
         E1, P1 = vmi.toPES(radial, inten.copy(), c1)
         E2, P2 = vmi.toPES(radial, inten.copy(), c2)
+        # the Jacobian dE/dr = 2 c r at every sample with r > 0, the first one included when the grid does not start on the axis
+        k0 = 1 if radial[0] == 0 else 0
+        want = inten[k0:] / (2 * radial[k0:] * c1)
+        if np.abs(P1[k0:] - want).max() > 1e-12 * np.abs(want).max():
+            bad = int(np.argmax(np.abs(P1[k0:] - want))) + k0
+            ck.violation(dict(site="toPES", clause="jacobian"), dict(K=K, radial_start=start, c=c1, sample=bad),
+                         f"toPES: sample {bad} (r = {radial[bad]}) is {P1[bad]:.6g}, I/(2 c r) = {inten[bad] / (2 * radial[bad] * c1):.6g}")
         F1, Q1 = vmi.toPES(radial, inten.copy(), c1, per_energy_scaling=False)
         rep = dict(K=K, radial_start=start, c1=c1, c2=c2, first_intensity=float(inten[0]))
         if np.abs(P1 * c1 - P2 * c2).max() > 1e-12 * np.abs(P1 * c1).max() or np.abs(E1 / c1 - E2 / c2).max() > 1e-12 * np.abs(E1 / c1).max():
